@@ -14,6 +14,7 @@ from dateparser.languages.loader import LocaleDataLoader
 from dateparser.parser import _parse_absolute, _parse_nospaces
 from dateparser.timezone_parser import pop_tz_offset_from_string
 from dateparser.utils import (
+    _get_missing_parts,
     apply_timezone_from_settings,
     get_timezone_from_tz_string,
     set_correct_day_from_settings,
@@ -186,8 +187,9 @@ def parse_with_formats(date_string, date_formats, settings):
         except ValueError:
             continue
         else:
-            missing_month = not any(m in date_format for m in ["%m", "%b", "%B"])
-            missing_day = "%d" not in date_format
+            missing_parts = _get_missing_parts(date_format)
+            missing_month = "month" in missing_parts
+            missing_day = "day" in missing_parts
             if missing_month and missing_day:
                 period = "year"
                 date_obj = set_correct_month_from_settings(date_obj, settings)
@@ -201,7 +203,7 @@ def parse_with_formats(date_string, date_formats, settings):
                 period = "month"
                 date_obj = set_correct_day_from_settings(date_obj, settings)
 
-            if not ("%y" in date_format or "%Y" in date_format):
+            if "year" in missing_parts:
                 today = datetime.today()
                 date_obj = date_obj.replace(year=today.year)
 
